@@ -26,7 +26,7 @@ def correspondence(ctx):
             break
     # (b) compression capacity sweep
     cases = []
-    ninputs = 40 if ctx.quick() else 600
+    ninputs = 40 if ctx.quick() else 200
     for i in range(ninputs):
         if i % 5 == 0:
             x = datagen.randbytes(rng, rng.choice([0, 1, 100, 5000, 131072, 140000])); kind = "incompressible"
